@@ -162,7 +162,7 @@ CHECKS = {
         "by the harness (exploration, not proof).",
    technique="Lean 4 totality proofs (no panic, length preserved) + differential/fuzz run under recover()",
    ref="DESIGN.md section 5 C12"),
- "C16": dict(engine="store+sig",
+ "C16": dict(engine="store+sig+api",
    text="Lean 4 proofs over an executable model of token/stateful.go for every history of update/delete/get/list/expire with arbitrary tags, injected write/open "
         "failures, external edits/removals of the file and restarts: (1) C16_refines: the live view equals what a fresh process loads, for every history; (2) "
         "compare-and-swap: success only with the tag of the version replaced, at most one success per tag, creation requires absence; (3) revocation by delete/sweep is "
